@@ -26,7 +26,7 @@ func setupC11Hub(x *Ctx) {
 	r.eth.Delay = func() time.Duration {
 		return time.Duration(x.S.ChooseBiased("mdns-delay", 3, 0.6)) * 200 * time.Millisecond
 	}
-	if x.Chance("cut-at-register", 0.12) {
+	if x.Feat(FeatCutAtRegister) && x.Chance("cut-at-register", 0.12) {
 		k := 1 + x.Choose("cut-at-register-k", 4)
 		stall := x.Chance("stall-at-register", 0.5)
 		r.atRegister = func(node string, n int) {
@@ -44,7 +44,11 @@ func setupC11Hub(x *Ctx) {
 	var causes []string
 	var gaps []time.Duration
 	for i := 0; i < n; i++ {
-		causes = append(causes, c11Causes[x.Choose("cause", len(c11Causes))])
+		kinds := c11Causes
+		if !x.Feat(FeatCrash) {
+			kinds = c11Causes[:8]
+		}
+		causes = append(causes, kinds[x.Choose("cause", len(kinds))])
 		gaps = append(gaps, []time.Duration{0, 0, time.Millisecond, 400 * time.Millisecond, 600 * time.Millisecond, 3 * time.Second, 25 * time.Second}[x.Choose("gap", 7)])
 	}
 	x.SigAdd(fmt.Sprintf("lat=%v causes=%v gaps=%v", lat, causes, gaps))
